@@ -384,8 +384,8 @@ func (s *ClientSession) doMsg(stream *Stream) error {
 	case base.RtmpTypeIdVideo:
 		s.onReadRtmpAvMsg(stream.toAvMsg())
 	default:
+		// 注意，对端可能发送任意类型的消息，不能因此让整个进程退出，忽略这个消息
 		Log.Errorf("[%s] read unknown message. typeid=%d, %s", s.UniqueKey(), stream.header.MsgTypeId, stream.toDebugString())
-		panic(0)
 	}
 	return nil
 }
